@@ -306,6 +306,9 @@ func genCorrupt(t *rapid.T) CorruptCase {
 
 const allocSlack = 1 << 20
 
+// scaleRangeKey: a Scale >= 1e100 (or < 1e-99) needs three exponent digits, BinarySize() is a constant.
+const scaleRangeKey = "C08:size:scale-outside-fixed-width-range"
+
 func runCorrupt(c CorruptCase, rec *h.Rec) error {
 	req := DecodeReq{Params: c.Params, Objs: []ObjSpec{c.Obj}, Reader: ReaderSpec{Kind: c.Reader, Size: 4096, Chunk: ChunkSpec{Mode: "all"}}, Trunc: -1, Corrupt: &c.Corrupt}
 	res := inChild(req)
@@ -365,7 +368,12 @@ func judgeDamaged(T, where string, res DecodeRes, rec *h.Rec) error {
 		rec.Class("outcome=error")
 	case st.ReDiff != "":
 		rec.Class("outcome=accepted-inconsistent")
-		err = known("C08:corrupt:"+T+":accepted-inconsistent", st.ReDiff)
+		key := "C08:corrupt:" + T + ":accepted-inconsistent"
+		if st.HugeScale {
+			// root cause: rlwe.Scale accepts / writes values that its fixed-size encoding cannot hold
+			key = scaleRangeKey
+		}
+		err = known(key, st.ReDiff)
 	case st.Diff == "":
 		rec.Class("outcome=accepted-same-object") // the changed byte does not influence the value (e.g. insignificant JSON digit)
 	default:
